@@ -14,7 +14,13 @@ import SlipVerif.Driver.Util
      order <node>*     -> ok <name>*             node = <name>:<inh>,<inh>…  (snapshotOrder)
      gosort <node>*    -> ok <t|nil> <name>*     Go insertion sort with the "b inherits a" comparator; topoOk
      close <def>*      -> ok <node>*             def = <name>:<direct>,…  (closeHistory)
-     loads <node>*     -> ok t | ok nil <name>   can the flavors be defined in this order (loadFlavors) -/
+     loads <node>*     -> ok t | ok nil <name>   can the flavors be defined in this order (loadFlavors)
+     instops (<slot> <fresh: U|term> <state: U|term>)*  -> ok <term>   the operations of an instance load form: a list of
+                                          (slot . u) | (slot . (s . <load form of the value>))
+     flavors (F <name> <k> <comp>*k <m> (<var> <term>)*m)*
+                       -> ok (F <name> L <n> (<var> <term>)* E <n> (<var> <term>)* I <n> <inherited>*)*
+                          L: instance variables of the flavor's load form, E: effective defaults,
+                          I: flattened inherit list; variables sorted by name -/
 namespace SlipVerif.Driver.LoadForm
 open SlipVerif.LoadForm SlipVerif.Driver
 
@@ -96,6 +102,67 @@ def parseNode (tok : String) : Option Node :=
 
 def showNode (n : Node) : String := n.name ++ ":" ++ ",".intercalate n.inherits
 
+/-- one slot state: `U` or a term -/
+def parseState (toks : List String) : Option (Slot × List String) :=
+  match toks with
+  | [] => none
+  | tok :: rest =>
+    if tok = "U" then some (.unbound, rest)
+    else (parse (toks.length + 1) toks).map fun (v, r) => (.bound v, r)
+
+/-- `<slot> <fresh state> <state>` … -/
+def parseSlots : Nat → List String → Option (List (String × Slot × Slot))
+  | 0, _ => none
+  | _, [] => some []
+  | fuel + 1, name :: rest => do
+    let (fr, r1) ← parseState rest
+    let (st, r2) ← parseState r1
+    let more ← parseSlots fuel r2
+    some ((name, fr, st) :: more)
+
+def opsTerm (ops : List (String × Option SlotOp)) : Obj :=
+  ops.foldr (fun (s, op) acc =>
+    match op with
+    | none => acc
+    | some .makunbound => .cons (.cons (.sym s) (.sym "u")) acc
+    | some (.set form) => .cons (.cons (.sym s) (.cons (.sym "s") form)) acc) .nil
+
+/-- n variable/term pairs -/
+def parseVars : Nat → List String → Option (List (String × Obj) × List String)
+  | 0, toks => some ([], toks)
+  | n + 1, v :: rest => do
+    let (d, r) ← parse (rest.length + 1) rest
+    let (more, r') ← parseVars n r
+    some ((v, d) :: more, r')
+  | _ + 1, [] => none
+
+/-- `F <name> <k> <component>*k <m> (<var> <term>)*m` … -/
+def parseFlavs : Nat → List String → Option (List (String × List (String × Obj) × List String))
+  | 0, _ => none
+  | _, [] => some []
+  | fuel + 1, "F" :: name :: k :: rest => do
+    let k ← k.toNat?
+    if rest.length < k then none else
+    let comps := rest.take k
+    match rest.drop k with
+    | m :: rest' => do
+      let m ← m.toNat?
+      let (own, r) ← parseVars m rest'
+      let more ← parseFlavs fuel r
+      some ((name, own, comps) :: more)
+    | [] => none
+  | _ + 1, _ => none
+
+def sortVars (l : List (String × Obj)) : List (String × Obj) :=
+  l.foldr (fun x acc =>
+    let rec ins : List (String × Obj) → List (String × Obj)
+      | [] => [x]
+      | y :: ys => if x.1 ≤ y.1 then x :: y :: ys else y :: ins ys
+    ins acc) []
+
+def showVars (l : List (String × Obj)) : String :=
+  toString l.length ++ String.join ((sortVars l).map fun (v, d) => " " ++ v ++ " " ++ showTerm d)
+
 def handle (entry : String) (args : List String) : String :=
   match entry with
   | "form" => match parseAll args with
@@ -123,6 +190,17 @@ def handle (entry : String) (args : List String) : String :=
       | .ok _ => "ok t"
       | .error n => "ok nil " ++ n
     | none => "bad-request node"
+  | "instops" => match parseSlots (args.length + 1) args with
+    | some slots =>
+      "ok " ++ showTerm (opsTerm (instanceLoadOps (slots.map fun (s, fr, _) => (s, fr)) (slots.map fun (s, _, st) => (s, st))))
+    | none => "bad-request slots"
+  | "flavors" => match parseFlavs (args.length + 1) args with
+    | some defs =>
+      let w := defFlavors defs []
+      "ok" ++ String.join (w.map fun f =>
+        " F " ++ f.name ++ " L " ++ showVars (flavorLoadVars w f) ++ " E " ++ showVars f.defaults
+          ++ " I " ++ toString f.inherits.length ++ String.join (f.inherits.map (" " ++ ·)))
+    | none => "bad-request flavors"
   | "close" => match args.mapM parseNode with
     | some ds => "ok " ++ " ".intercalate ((closeHistory (ds.map (fun d => (d.name, d.inherits))) []).map showNode)
     | none => "bad-request def"
